@@ -11,7 +11,13 @@ Oracle (independent of the model): every checker logs its calls; a string is rej
 the checker registered *now* under that name was called with that string and returned false; an
 unregistered name warns and accepts; non-strings are never handed to a checker.
 Built-in clause (exploration, not proof: the parsers are external libraries): canonical UUIDs and
-RFC 3339 timestamps produced from the grammars must be accepted."""
+RFC 3339 timestamps produced from the grammars must be accepted.
+Vocabulary sweep: "all format names x all values" includes the names some vocabulary gives a meaning to (the JSON Schema drafts, the
+OpenAPI format registry, every short string literal of the library's own source) and values at the magnitudes fixed-width
+readings care about, checked through elements of the value's own type too (`{"type": "integer", "format": ...}`): for each name, in
+each registration state (as the process has it / accept-all checker / reject-all checker), the same oracle."""
+import ast
+import os
 import random
 import uuid as uuidlib
 import warnings
@@ -30,6 +36,8 @@ ASSUMPTIONS = ["checkers are total predicates returning bool (a checker that rai
                "the built-in uuid / date-time checkers are external library calls: their clause is explored from the grammars, not proved"]
 N_HIST = {"quick": 400, "thorough": 15000}
 N_OVERLAP = {"quick": 150, "thorough": 4000}
+SWEEP_HARVESTED = {"quick": 40, "thorough": None}      # how many of the library's own string literals the sweep takes as names (None: all)
+SWEEP_ROUNDS = {"quick": 1, "thorough": 8}              # per name and registration state: how many times every stratum of values is visited
 
 NAMES = ["custom", "Custom", "CUSTOM", "email", "e-mail", "", " ", "uuid", "UUID", "Uuid", "date-time", "Date-Time", "date_time", "datetime",
          "uuid ", "ipv4", "x" * 40, "é", "É", "ß", "SS", "ss", "ſ", "K", "K", "k",
@@ -117,13 +125,36 @@ def observe(el, value):
 
 
 def make_element(kind, name):
+    """The element a check of kind `kind` validates with; name None = the same element without its format keyword (the
+    control that tells a rejection on account of the format from one on account of something else)."""
+    fmt = {} if name is None else {"format": name}
     if kind == "String":
-        return String(format=name)
+        return String(**fmt)
     if kind == "Element":
-        return Element(format=name)
+        return Element(**fmt)
     if kind == "parse-string":
-        return parse_element({"type": "string", "format": name})
-    return parse_element({"format": name})
+        return parse_element({"type": "string", **fmt})
+    if kind.startswith("parse-type:"):      # a schema typed with the given JSON type(s)
+        types = kind[len("parse-type:"):].split(",")
+        return parse_element({"type": types[0] if len(types) == 1 else types, **({"title": "Obj"} if "object" in types else {}), **fmt})
+    if kind == "parse-items":               # the format keyword on the items of an array; the value is checked as its only item
+        arr = parse_element({"type": "array", "items": dict(fmt)})
+        return lambda value: arr([value])
+    return parse_element(fmt)
+
+
+def json_type(value):
+    return ("boolean" if isinstance(value, bool) else "integer" if isinstance(value, int) else "number" if isinstance(value, float)
+            else "string" if isinstance(value, str) else "null" if value is None else "array" if isinstance(value, list) else "object")
+
+
+def kinds_admitting(value):
+    """Element kinds whose type (if any) admits `value`: whatever they answer is on account of the format keyword."""
+    own = json_type(value)
+    other = "integer" if own in ("string", "null") else "string"
+    kinds = ["Element", "parse-any", "parse-items", "parse-type:" + own, f"parse-type:{own},null" if own != "null" else "parse-type:null,string",
+             f"parse-type:{other},{own}"]
+    return kinds + ["String", "parse-string"] if own == "string" else kinds
 
 
 def judge(kind, name, value, res, calls, current, saved):
@@ -133,8 +164,10 @@ def judge(kind, name, value, res, calls, current, saved):
     Returns (category, [what failed])."""
     whats = []
     if not isinstance(value, str):
-        if kind in ("Element", "parse-any") and res != "accept":
-            whats.append(f"non-string {value!r} under format {name!r}: {res}")
+        # an element typed as a string rejects it on account of the type; every other kind is made so that its type admits
+        # the value: a rejection that disappears when the format keyword is taken away is a rejection on account of the format
+        if kind not in ("String", "parse-string") and res != "accept" and (kind in ("Element", "parse-any") or observe(make_element(kind, None), value) == "accept"):
+            whats.append(f"non-string {value!r} under format {name!r} ({kind}): {res}")
         if calls:
             whats.append(f"non-string {value!r} was handed to a checker")
         return "non-string", whats
@@ -525,6 +558,112 @@ def random_history(rng, n_steps):
     return steps
 
 
+# ---- format names that some vocabulary gives a meaning to, and values at the magnitudes such meanings care about.  The statement
+# ---- quantifies over ALL format names and ALL values: whatever a name means elsewhere, here it means "ask the register".
+
+STANDARD_FORMATS = [
+    # JSON Schema, drafts 3 to 2020-12
+    "date-time", "date", "time", "duration", "email", "idn-email", "hostname", "idn-hostname", "ipv4", "ipv6", "uri", "uri-reference", "iri",
+    "iri-reference", "uri-template", "json-pointer", "relative-json-pointer", "regex", "uuid", "color", "style", "phone", "utc-millisec",
+    "host-name", "ip-address",
+    # the OpenAPI format registry
+    "int8", "int16", "int32", "int64", "uint8", "uint16", "uint32", "uint64", "float", "double", "decimal", "decimal128", "double-int", "byte",
+    "binary", "base64url", "password", "char", "commonmark", "html", "http-date", "media-range", "unix-time", "sf-string", "sf-integer",
+    "sf-decimal", "sf-boolean", "sf-token", "sf-binary",
+]
+
+
+def harvested_names():
+    """Every short printable string literal (docstrings excepted) of the library's own source: a name the implementation treats
+    specially has to be spelled somewhere in it."""
+    import statham
+    found = set()
+    for folder, _, files in os.walk(os.path.dirname(os.path.abspath(statham.__file__))):
+        for fname in files:
+            if not fname.endswith(".py"):
+                continue
+            try:
+                with open(os.path.join(folder, fname), encoding="utf8") as fh:
+                    tree = ast.parse(fh.read())
+            except (OSError, SyntaxError, ValueError):
+                continue
+            docs = set()
+            for node in ast.walk(tree):
+                body = getattr(node, "body", None) if isinstance(node, (ast.Module, ast.ClassDef, ast.FunctionDef, ast.AsyncFunctionDef)) else None
+                if body and isinstance(body[0], ast.Expr) and isinstance(body[0].value, ast.Constant):
+                    docs.add(id(body[0].value))
+            for node in ast.walk(tree):
+                if isinstance(node, ast.Constant) and isinstance(node.value, str) and id(node) not in docs:
+                    if 0 < len(node.value) <= 24 and node.value.isprintable():
+                        found.add(node.value)
+    return sorted(found)
+
+
+def magnitude_ladder():
+    """Values that are not strings, in strata: numbers on both sides of every boundary a fixed-width reading of a number has (8
+    to 128 bit integers, signed and unsigned; single and double precision floats), booleans and null, containers."""
+    ints = [0, 1, -1, 10 ** 30, -10 ** 30, 10 ** 400]
+    for k in (7, 8, 15, 16, 31, 32, 53, 63, 64, 127, 128):
+        for v in (2 ** k - 1, 2 ** k, 2 ** k + 1):
+            ints += [v, -v]
+    floats = [0.5, -0.0, 0.1, 2.5, 1e-7, 1e-46, 5e-324, 16777217.0, 2.0 ** 31, -2.0 ** 31 - 1, 2.0 ** 63, -2.0 ** 64, 9007199254740993.0, 3.4028234663852886e38,
+              3.5e38, -3.5e38, 1e39, -1e300, 1.7976931348623157e308, -1.7976931348623157e308]
+    single = 3.4028234663852886e38
+    return [
+        (1, [v for v in ints if -2 ** 31 <= v < 2 ** 31]),
+        (2, [v for v in ints if not -2 ** 31 <= v < 2 ** 31 and -2 ** 63 <= v < 2 ** 63]),
+        (2, [v for v in ints if not -2 ** 63 <= v < 2 ** 63]),
+        (1, [v for v in floats if abs(v) <= single]),
+        (2, [v for v in floats if abs(v) > single]),
+        (1, [True, False, None]),
+        (1, [[], ["abc"], [2 ** 31], [[]], {}, {"a": "abc"}, {"abc": 2 ** 63}]),
+    ]
+
+
+SWEEP_STRINGS = ["2147483648", "-1", "9223372036854775808", "3.5e38", "0", "١٢"]
+
+
+def sweep_history(rng, name, rounds):
+    """One name through its registration states: as the process has it (unregistered, or a built-in entry), under a checker
+    that accepts everything, under one that rejects everything, under a drawn one; in each state `rounds` times: one or two
+    values of every stratum of values that are not strings and two strings, through a drawn kind of element among those whose
+    type admits the value."""
+    strata = magnitude_ladder() + [(2, STRINGS + SWEEP_STRINGS)]
+    steps = []
+    for pid in (None, "yes", "no", rng.choice(list(PREDICATES))):
+        if pid is not None:
+            steps.append(("register", name, pid))
+        values = [rng.choice(vals) for _ in range(rounds) for weight, vals in strata for _ in range(weight)]
+        rng.shuffle(values)
+        steps += [("check", rng.choice(kinds_admitting(value)), name, value) for value in values]
+    return steps
+
+
+def run_vocabulary_sweep(drv, rng, out, stats, n_harvested, rounds, label="sweep"):
+    harvested = [nm for nm in harvested_names() if nm not in STANDARD_FORMATS]
+    stats["sweep-harvested-literals-available"] = len(harvested)
+    picked = harvested if n_harvested is None or n_harvested >= len(harvested) else rng.sample(harvested, n_harvested)
+    names = [("standard", nm) for nm in STANDARD_FORMATS] + [("harvested", nm) for nm in picked]
+    rng.shuffle(names)
+    for k, (source, name) in enumerate(names):
+        steps = sweep_history(rng, name, rounds)
+        stats["sweep-histories"] = stats.get("sweep-histories", 0) + 1
+        stats["sweep-names-" + source] = stats.get("sweep-names-" + source, 0) + 1
+        state = "as-found"
+        for st in steps:
+            if st[0] == "register":
+                state = "under-" + st[2] if st[2] in ("yes", "no") else "under-drawn"
+                continue
+            value = st[3]
+            what = ("string" if isinstance(value, str) else "bool" if isinstance(value, bool)
+                    else ("int-beyond-64-bit" if not -2 ** 63 <= value < 2 ** 63 else "int-beyond-32-bit" if not -2 ** 31 <= value < 2 ** 31 else "int-small") if isinstance(value, int)
+                    else ("float-beyond-single" if abs(value) > 3.4028234663852886e38 else "float") if isinstance(value, float) else json_type(value))
+            for key in ("sweep-value-" + what, "sweep-kind-" + st[1].split(":")[0] + ("-own-type" if st[1] == "parse-type:" + json_type(value) else "-multi-type" if ":" in st[1] else ""),
+                        "sweep-" + state + ("-string" if isinstance(value, str) else "-non-string")):
+                stats[key] = stats.get(key, 0) + 1
+        run_history(drv, steps, out, stats, f"{label}-{source}-{k}")
+
+
 # ---- built-ins: canonical UUIDs and RFC 3339 timestamps from the grammars
 
 def canonical_uuid(rng):
@@ -600,7 +739,13 @@ def run(ctx, scale=1.0):
                 "their own name, another registered name, a built-in or an unregistered name (verdict combined by and / lazy and / ignored / "
                 "passed through), and steps where one check is held inside its 1st-3rd checker call in a second thread while 1-4 checks are made "
                 "from the first; every check made (nested and concurrent ones included) is judged by the same oracle; there a case is one check "
-                "with its history, non-trivial = overlapping with another check and under a custom checker; distinct by SHA-256")
+                "with its history, non-trivial = overlapping with another check and under a custom checker; plus a sweep of format names that mean "
+                "something elsewhere (54 names of the JSON Schema drafts and the OpenAPI registry, and short string literals harvested from the "
+                "library's own source), each through 4 registration states (as found / accept-all / reject-all / drawn checker) with 12 checks per "
+                "state: 1-2 values of every stratum of non-strings (integers within 32 bits / within 64 bits / beyond, on both sides of the 8..128-bit "
+                "boundaries; floats within / beyond single precision up to the double limits; booleans and null; containers) and 2 strings, through untyped elements, array items, and parsed schemas typed with the value's own "
+                "type alone / with null / with another type (a rejection of a non-string counts when the same element without its format "
+                "accepts the value); distinct by SHA-256")
     stats = {}
     drv = core.Driver()
     try:
@@ -642,6 +787,9 @@ def run(ctx, scale=1.0):
             run_overlap_history(steps, out, stats, f"overlap-fixed-{k}")
         for k in range(int(N_OVERLAP[ctx["tier"]] * scale)):
             run_overlap_history(random_overlap_history(rng, rng.randint(3, 14)), out, stats, f"overlap-random-{k}")
+        # every name some vocabulary gives a meaning to, through its registration states, on values at the magnitude boundaries
+        run_vocabulary_sweep(drv, rng, out, stats, int(SWEEP_HARVESTED[ctx["tier"]] * scale) if SWEEP_HARVESTED[ctx["tier"]] else None,
+                             SWEEP_ROUNDS[ctx["tier"]])
     finally:
         drv.close()
     out.stats = stats
@@ -651,6 +799,17 @@ def run(ctx, scale=1.0):
 def search(ctx, reason):
     sub = dict(ctx)
     sub["seed"] = ctx["seed"] + 49979687
+    # a broken table / signature / correspondence says the implementation reads the format keyword (or a name, or a value type)
+    # differently than the model: first the whole vocabulary (every harvested literal) at a larger budget, then everything again
+    rng = random.Random(sub["seed"] + 16)
+    first, drv = Outcome(), core.Driver()
+    try:
+        run_vocabulary_sweep(drv, rng, first, {}, None, 2, label="search-sweep")
+    finally:
+        drv.close()
+    new = [f for f in first.failures if f.get("finding") is None]
+    if new:
+        return new[0]
     found = run(sub, scale=2.0 if ctx["tier"] == "quick" else 1.0)
     new = [f for f in found.failures if f.get("finding") is None]
     return new[0] if new else (found.failures[0] if found.failures else None)
